@@ -111,18 +111,26 @@ theorem splitOn_intercalate_slash (parts : List String) (hne : parts ≠ [])
     exact h s hs
   · simpa using hne
 
+theorem takeWhile_ne_append (c : Char) (l r : List Char) (h : c ∉ l) :
+    (l ++ c :: r).takeWhile (· != c) = l ∧ (l ++ c :: r).dropWhile (· != c) = c :: r := by
+  induction l with
+  | nil => simp
+  | cons a l ih =>
+    have ha : a ≠ c := fun e => h (e ▸ List.mem_cons_self ..)
+    have hl : c ∉ l := fun e => h (List.mem_cons_of_mem _ e)
+    simp [ha, ih hl]
+
 theorem splitPrefix_bare (n : String) (h : ':' ∉ n.toList) : splitPrefix n = ("", n) := by
   unfold splitPrefix
-  rw [colon_eq, splitOn_char, List.splitOn_eq_singleton h]
-  simp
+  simp [h]
 
-theorem splitPrefix_pfx (p n : String) (hp : ':' ∉ p.toList) (hn : ':' ∉ n.toList) :
+theorem splitPrefix_pfx (p n : String) (hp : ':' ∉ p.toList) (_hn : ':' ∉ n.toList) :
     splitPrefix (p ++ ":" ++ n) = (p, n) := by
   unfold splitPrefix
-  rw [colon_eq, splitOn_char]
-  have : (p ++ String.singleton ':' ++ n).toList = p.toList ++ ':' :: n.toList := by simp
-  rw [this, List.splitOn_append_cons_self_of_not_mem hp, List.splitOn_eq_singleton hn]
-  simp
+  have : (p ++ ":" ++ n).toList = p.toList ++ ':' :: n.toList := by simp
+  simp only [this]
+  obtain ⟨h1, h2⟩ := takeWhile_ne_append ':' p.toList n.toList hp
+  simp [h1, h2]
 
 end Strings
 
@@ -1281,5 +1289,46 @@ theorem grown_getAt {a b : Entry} (h : Grown a b) : ∀ (q : Path) (x : Entry), 
     obtain ⟨x1, h1, d1⟩ := growStep_getAt s q x hx
     obtain ⟨x2, h2, d2⟩ := ih q x1 h1
     exact ⟨x2, h2, d2.trans d1⟩
+
+/-! ### a concrete forest for the non-vacuity examples of Props/C17: two modules, an rpc, a choice with an implicit case -/
+
+namespace Example
+
+def st (kw arg : String) (subs : List Stmt := []) : Stmt := .mk kw true arg "ex.yang" 1 1 subs
+/-- `module a { namespace "urn:a"; prefix pa; … }` -/
+def modA : Stmt := st "module" "a" [st "namespace" "urn:a", st "prefix" "pa"]
+/-- `module b { namespace "urn:b"; prefix pb; import a { prefix qa; } … }` -/
+def modB : Stmt := st "module" "b" [st "namespace" "urn:b", st "prefix" "pb", st "import" "a" [st "prefix" "qa"]]
+def exReg : Registry := { mods := [⟨0, modA⟩, ⟨1, modB⟩], modules := [("a", 0), ("b", 1)] }
+
+def leaf (n : String) : Entry := .mk { name := n, kind := .leaf, hasDir := false } [] [] []
+def dirE (n : String) (k : Kind) (c : List Entry) : Entry := .mk { name := n, kind := k } c [] []
+
+/-- a: container c { leaf x }, choice ch { (implicit case x0) leaf x0 }, rpc r { input { leaf i } } (no output) -/
+def treeA : Entry :=
+  dirE "a" .directory [
+    dirE "c" .directory [leaf "x"],
+    dirE "ch" .choice [dirE "x0" .case_ [leaf "x0"]],
+    .mk { name := "r", isRpc := true } [] [.mk { name := "input", kind := .input } [leaf "i"] [] []] []]
+/-- b: leaf y, container k { leaf z } -/
+def treeB : Entry := dirE "b" .directory [leaf "y", dirE "k" .directory [leaf "z"]]
+def exF : Forest := { trees := [(0, treeA), (1, treeB)] }
+
+theorem exF_wf : WFForest exF := by
+  constructor
+  · decide
+  · intro it hit
+    have : wfForest exF = true := by decide
+    simp only [wfForest, Bool.and_eq_true, List.all_eq_true] at this
+    exact this.2 it hit
+
+/-- In module b the prefix `qa` denotes module a (tree 0); its own prefix `pb` denotes b. -/
+theorem exReg_qa : Denotes exReg 1 "qa" 0 := ⟨⟨1, modB⟩, ⟨0, modA⟩, ⟨0, modA⟩, by rfl, by rfl, by rfl, rfl⟩
+theorem exReg_pb : Denotes exReg 1 "pb" 1 := ⟨⟨1, modB⟩, ⟨1, modB⟩, ⟨1, modB⟩, by rfl, by rfl, by rfl, rfl⟩
+theorem good_qa : GoodPrefix "qa" := ⟨by decide, by decide, by decide⟩
+
+theorem bogus_split : splitPrefix "qa:bogus" = ("qa", "bogus") := splitPrefix_pfx "qa" "bogus" (by decide) (by decide)
+
+end Example
 
 end Goyang.Lemmas.Find
